@@ -722,6 +722,10 @@ func (t *Topic) handleLeaveRequest(msg *ClientComMessage, sess *Session) {
 		if !sess.isProxy() {
 			sess.delSub(t.name)
 		}
+		if !msg.init {
+			// The session is gone, there is no request with a topic name to check: it leaves the way it was attached.
+			asChan = pssd.isChanSub
+		}
 		if pssd.isChanSub != asChan {
 			// Cannot address non-channel subscription as channel and vice versa.
 			if msg.init {
